@@ -844,4 +844,216 @@ theorem if_chain (C : Ctx) (file : Str) (via : List (Str × Nat)) (owner : FileI
             · simp only [h, if_true] at hrest ⊢; exact hrest
             · simp only [Bool.not_eq_true] at h; simp only [h, Bool.false_eq_true, if_false] at hrest ⊢; exact hrest.2
 
+/-- `for` loops: the iterations, then the `else` block unless the loop was left by `break` -/
+theorem for_loop (C : Ctx) (file : Str) (via : List (Str × Nat)) (owner : FileInfo) (G : Nat)
+    (IH : ∀ g, g < G → P C file via g) (ys : List PStmt) (hys : Insens ys)
+    (x : Str) (main : List Node) (hmain : frag .plain main = true) (pl : Nat)
+    (secs : List (Str × List Node)) (elseB : List PStmt)
+    (hsecs : (secs = [] ∧ elseB = []) ∨
+      (∃ sn m' pl', secs = [((/-"else"-/ [101, 108, 115, 101] : List Nat), sn)] ∧ frag .plain sn = true ∧
+        elseB = [.block ((/-"else"-/ [101, 108, 115, 101] : List Nat) ++ [58]) m'
+          ((emitBody file via owner.autoescape sn).1 ++ [mkPass file via pl'])])) :
+    ∀ (items : List Atom) (f : Nat) (out : List Nat) (env : Env) (tmp : Tmp), f < G →
+      Good (interpFor C f owner x items main secs out env).sig →
+      ∃ t, forTail (elseB ++ ys)
+          (loopFor (execList .none ((emitBody file via owner.autoescape main).1 ++ [mkPass file via pl])) x items ⟨out, env, tmp⟩)
+        = after ys (interpFor C f owner x items main secs out env) t := by
+  intro items
+  induction items with
+  | nil =>
+    intro f out env tmp hf hgood
+    cases f with
+    | zero => rw [interpFor_zero] at hgood; exact absurd rfl hgood.1
+    | succ f' =>
+      rw [interpFor_nil] at hgood ⊢
+      simp only [loopFor, forTail]
+      rcases hsecs with ⟨rfl, rfl⟩ | ⟨sn, m', pl', rfl, hsn, rfl⟩
+      · exact ⟨tmp, hys _ _⟩
+      · simp only [] at hgood ⊢
+        obtain ⟨t1, hb⟩ := IH f' (by omega) owner sn out env hsn hgood .none tmp [mkPass file via pl'] (insens_pass _ _ _ _)
+        rw [List.cons_append, execList_block, hk_else, blockSem_else_live, hb, after_pass, thenK_afterK]
+        exact ⟨t1, rfl⟩
+  | cons a items ih =>
+    intro f out env tmp hf hgood
+    cases f with
+    | zero => rw [interpFor_zero] at hgood; exact absurd rfl hgood.1
+    | succ f' =>
+      rw [interpFor_cons] at hgood ⊢
+      rw [loopFor_cons]
+      dsimp only
+      have hg1 : Good (interp C f' owner main out (env.set x (.atom a))).sig := by
+        cases hs : (interp C f' owner main out (env.set x (.atom a))).sig with
+        | raise y => simp only [hs] at hgood; exact hgood
+        | normal => exact ⟨by simp, by simp⟩
+        | brk => exact ⟨by simp, by simp⟩
+        | cont => exact ⟨by simp, by simp⟩
+      obtain ⟨t1, hb⟩ := IH f' (by omega) owner main out (env.set x (.atom a)) hmain hg1 .none tmp [mkPass file via pl] (insens_pass _ _ _ _)
+      rw [hb, after_pass]
+      generalize interp C f' owner main out (env.set x (.atom a)) = r1 at hgood ⊢
+      cases hs : r1.sig with
+      | normal =>
+        simp only [hs] at hgood
+        simp only [afterK, hs]
+        exact ih f' r1.out r1.env t1 (by omega) hgood
+      | cont =>
+        simp only [hs] at hgood
+        simp only [afterK, hs]
+        exact ih f' r1.out r1.env t1 (by omega) hgood
+      | brk =>
+        simp only [afterK, hs, forTail, after]
+        refine ⟨t1, ?_⟩
+        rcases hsecs with ⟨rfl, rfl⟩ | ⟨sn, m', pl', rfl, hsn, rfl⟩
+        · exact hys _ _
+        · rw [List.cons_append, execList_block, hk_else, blockSem_else_skip]; rfl
+      | raise y =>
+        simp only [afterK, hs, forTail, after]
+        exact ⟨t1, rfl⟩
+
+/-- one `{% if %}` / `{% for %}` directive -/
+theorem exec_control (C : Ctx) (file : Str) (via : List (Str × Nat)) (owner : FileInfo) (G : Nat)
+    (IH : ∀ g, g < G → P C file via g) (s : Str) (l : Nat) (body : List Node) (g0 : Nat) (hg0 : g0 ≤ G)
+    (hfr : (if (partitionSp s).1 == (/-"if"-/ [105, 102] : List Nat) then frag .ifChain body
+            else if (partitionSp s).1 == (/-"for"-/ [102, 111, 114] : List Nat) then frag .forMain body else false) = true)
+    (out : List Nat) (env : Env) (tmp : Tmp) (mode : Mode) (K : List PStmt) (hK : Insens K)
+    (hgood : Good (interpControl C g0 owner s body out env).sig) :
+    ∃ t, execList mode (buildBlocks file via s l (emitBody file via owner.autoescape body).1
+          (emitBody file via owner.autoescape body).2 l ++ K) ⟨out, env, tmp⟩
+      = after K (interpControl C g0 owner s body out env) t := by
+  cases g0 with
+  | zero => rw [interpControl_zero] at hgood; exact absurd rfl hgood.1
+  | succ f =>
+    obtain ⟨he1, he2⟩ := emit_split file via owner.autoescape body
+    by_cases hif : ((partitionSp s).1 == (/-"if"-/ [105, 102] : List Nat)) = true
+    · simp only [hif, if_true] at hfr
+      obtain ⟨hm, hsecs⟩ := frag_split body .ifChain hfr
+      rw [interpControl_if _ _ _ _ _ _ _ hif] at hgood ⊢
+      rw [he1]
+      exact if_chain C file via owner G IH K hK _ _ s l _ f out env tmp mode l (by omega) he2 hm (.inl hif)
+        (by simp only [if_not_else s hif, Bool.false_eq_true, if_false]; exact hsecs) hgood
+    · simp only [Bool.not_eq_true] at hif
+      simp only [hif, Bool.false_eq_true, if_false] at hfr
+      have hfor : ((partitionSp s).1 == (/-"for"-/ [102, 111, 114] : List Nat)) = true := by
+        split at hfr
+        · assumption
+        · cases hfr
+      simp only [hfor, if_true] at hfr
+      obtain ⟨hm, hsecs⟩ := frag_split body .forMain hfr
+      rw [interpControl_for _ _ _ _ _ _ _ hif hfor] at hgood ⊢
+      rw [buildBlocks_head, List.cons_append, execList_block, hk_for s hif hfor]
+      cases hsp : splitIn (strip (partitionSp s).2) with
+      | none => simp only [hsp, unsupported] at hgood; exact absurd rfl hgood.2
+      | some p =>
+        obtain ⟨x, e⟩ := p
+        simp only [hsp] at hgood ⊢
+        by_cases hid : isIdent (strip x) = true
+        · simp only [hid, Bool.not_true, Bool.false_eq_true, if_false] at hgood ⊢
+          cases hev : evalExpr env (strip e) with
+          | error exc =>
+            simp only [hev] at hgood ⊢
+            rw [blockSem_for_err _ _ _ _ _ _ exc hid hev]
+            exact ⟨tmp, rfl⟩
+          | ok v =>
+            cases v with
+            | atom a => simp only [hev, unsupported] at hgood; exact absurd rfl hgood.2
+            | list items =>
+              simp only [hev] at hgood ⊢
+              rw [blockSem_for _ _ _ _ _ _ items hid hev, he1]
+              refine for_loop C file via owner G IH K hK (strip x) _ hm _ _ _ ?_ items f out env tmp (by omega) hgood
+              generalize (splitInter body).2 = qs at he2 hsecs
+              generalize (emitBody file via owner.autoescape body).2 = ps at he2
+              cases qs with
+              | nil => exact .inl ⟨rfl, by rw [secRel_nil_right he2]; rfl⟩
+              | cons q more =>
+                obtain ⟨sq, bq⟩ := q
+                simp only [SecsOK] at hsecs
+                obtain ⟨hsq, hbq, rfl⟩ := hsecs
+                have e : sq = (/-"else"-/ [101, 108, 115, 101] : List Nat) := by simpa using hsq
+                subst e
+                cases ps with
+                | nil => simp [SecRel] at he2
+                | cons p ps' =>
+                  obtain ⟨l', s'', b'⟩ := p
+                  simp only [SecRel] at he2
+                  obtain ⟨rfl, rfl, hrel'⟩ := he2
+                  have := secRel_nil_right hrel'
+                  subst this
+                  exact .inr ⟨bq, _, _, rfl, hbq, rfl⟩
+        · simp only [Bool.not_eq_true] at hid
+          simp only [hid, Bool.not_false, if_true, unsupported] at hgood
+          exact absurd rfl hgood.2
+
+/-- **the interpreter and the generated statements agree on every body of the fragment** -/
+theorem exec_interp (C : Ctx) (file : Str) (via : List (Str × Nat)) : ∀ g, P C file via g := by
+  intro g
+  induction g using Nat.strongRecOn with
+  | _ g IH =>
+    intro owner nodes out env hfr hgood mode tmp ys hys
+    cases g with
+    | zero => rw [interp_zero] at hgood; exact absurd rfl hgood.1
+    | succ g0 =>
+      cases nodes with
+      | nil =>
+        rw [interp_nil]
+        simp only [emitBody, List.nil_append]
+        exact ⟨tmp, hys _ _⟩
+      | cons n ns =>
+        rw [interp_cons] at hgood ⊢
+        have hn : ∀ s l, n ≠ .inter s l := by
+          intro s l h; subst h; simp [frag] at hfr
+        have key : frag .plain ns = true ∧ (Good (nodeR C g0 owner n out env).sig →
+            ∃ t1, execList mode (emitNode file via owner.autoescape n ++ ((emitBody file via owner.autoescape ns).1 ++ ys)) ⟨out, env, tmp⟩
+              = after ((emitBody file via owner.autoescape ns).1 ++ ys) (nodeR C g0 owner n out env) t1) := by
+          cases n with
+          | text v l ws =>
+            simp only [frag] at hfr
+            refine ⟨hfr, fun _ => ?_⟩
+            have hK := insens_emit file via owner.autoescape ns ys hfr hys
+            simp only [emitNode, emitBody, List.append_nil]
+            by_cases hv : (textValue v ws).isEmpty = true
+            · have e : textValue v ws = [] := by simpa using hv
+              simp only [hv, if_true, List.nil_append]
+              refine ⟨tmp, ?_⟩
+              rw [hK _ _]
+              simp [nodeR, after, e, utf8]
+            · simp only [hv, if_false, Bool.false_eq_true, List.singleton_append]
+              rw [execList_simple, execSimple_lit]
+              exact ⟨tmp, rfl⟩
+          | expr e l raw =>
+            simp only [frag] at hfr
+            refine ⟨hfr, fun hg => ?_⟩
+            simp only [emitNode, emitBody, List.append_nil]
+            rw [nodeR_expr] at hg ⊢
+            exact exec_expr file via owner.autoescape e l raw out env tmp mode _ hg
+          | control s l body =>
+            simp only [frag, Bool.and_eq_true] at hfr
+            refine ⟨hfr.2, fun hg => ?_⟩
+            have hK := insens_emit file via owner.autoescape ns ys hfr.2 hys
+            simp only [emitNode, emitBody, List.append_nil]
+            exact exec_control C file via owner (g0 + 1) IH s l body g0 (by omega) hfr.1 out env tmp mode _ hK hg
+          | inter s l => simp [frag] at hfr
+          | stmt s l => simp [frag] at hfr
+          | apply m l body => simp [frag] at hfr
+          | block name l body => simp [frag] at hfr
+          | «extends» name => simp [frag] at hfr
+          | incl name l => simp [frag] at hfr
+        obtain ⟨hns, hstep⟩ := key
+        rw [emitBody_cons _ _ _ n ns hn, List.append_assoc]
+        have hg1 : Good (nodeR C g0 owner n out env).sig := by
+          cases hs : (nodeR C g0 owner n out env).sig with
+          | raise y => simp only [hs] at hgood; exact hgood
+          | normal => exact ⟨by simp, by simp⟩
+          | brk => exact ⟨by simp, by simp⟩
+          | cont => exact ⟨by simp, by simp⟩
+        obtain ⟨t1, h1⟩ := hstep hg1
+        rw [h1]
+        generalize nodeR C g0 owner n out env = r1 at hgood ⊢
+        cases hs : r1.sig with
+        | normal =>
+          simp only [hs] at hgood
+          simp only [after, hs]
+          exact IH g0 (Nat.lt_succ_self _) owner ns r1.out r1.env hns hgood .none t1 ys hys
+        | brk => exact ⟨t1, by simp only [after, hs]⟩
+        | cont => exact ⟨t1, by simp only [after, hs]⟩
+        | raise y => exact ⟨t1, by simp only [after, hs]⟩
+
 end TornadoModel.C19
